@@ -30,6 +30,7 @@ NAME_MAPS = [
     {'X': 'GDP', 'Y': 'Y1', 'Q': 'gdp', 'k': 'n_'},   # undefined name differs from a variable only by case
     {'X': '_x', 'Y': 'é1', 'Q': '_q', 'k': '_'},      # underscore-prefixed and non-ASCII identifiers
 ]
+BIG = 2 ** 53 + 1
 HELPERS = ('lag', 'lead', 'diff', 'dlog', 'exp', 'log', 'nofn')
 
 
@@ -113,6 +114,8 @@ def run_ts(rec, idx, out):
     if fill != NAN:
         variants.append(('int64', (idx + 3) % 8))
     jobs = [(op, dt, st) for dt, st in variants]
+    if fill != NAN:
+        jobs.append((op, 'int64-big', (idx + 1) % 8))     # integers that float64 cannot hold exactly
     if op == 'diff':
         jobs.append(('dlog', 'float64', (idx + 5) % 8))
         jobs.append(('dlog', 'float64-signed', (idx + 6) % 8))
@@ -124,6 +127,8 @@ def run_ts(rec, idx, out):
             x[1::3] = -x[1::3] - 2.0
         elif fn == 'dlog':
             x = real_array(rec['x'], float) + 1.0     # strictly positive, exactly representable
+        elif dt == 'int64-big':
+            x = real_array(rec['x'], np.dtype('int64')) + BIG
         else:
             x = real_array(rec['x'], np.dtype(dt))
         before = x.tobytes()
@@ -169,6 +174,11 @@ def run_ts(rec, idx, out):
                     bad.append(i)
             if bad:
                 problems.append(('value', f'dlog differs at positions {bad}'))
+        elif dt == 'int64-big':
+            want = [int(v) if (i in set(rec['fp']) or fn == 'diff') else int(v) + BIG for i, v in enumerate(exp['v'])]
+            got = [int(v) if float(v) == int(v) else v for v in np.asarray(r).tolist()]
+            if got != want:
+                problems.append(('value', f'values differ from the specification on integers beyond 2**53: {got} vs {want}'))
         else:
             if not same_values(r, real_array(exp['v'])):
                 problems.append(('value', 'values differ from the specification'))
